@@ -1,6 +1,8 @@
 package main
 
 import (
+	"go/types"
+	"go/constant"
 	"sync"
 	"bufio"
 	"encoding/json"
@@ -175,6 +177,24 @@ func cmdCheck(args []string) int {
 		oblCtx[vo] = c
 		allObls = append(allObls, vo)
 		rep.Obligations++
+	}
+	// guarantee side of the declared relies on atomic words: every access to such a field
+	// anywhere in the module is a Load, or a CompareAndSwap whose expected old value is the
+	// constant the rely names; anything else breaks what the other goroutines rely on
+	for key, ar := range p.Specs.Atomics {
+		has := false
+		for _, q := range ar.Props {
+			if q == *prop {
+				has = true
+			}
+		}
+		if !has {
+			continue
+		}
+		for _, o := range atomicGuaranteeScan(p, key, ar) {
+			o.Props = ar.Props
+			allObls = append(allObls, o)
+		}
 	}
 	// lemmas tagged with this property: proved from the axioms and earlier lemmas alone
 	{
@@ -571,4 +591,82 @@ func mutableGlobalNamed(p *Program, pkgPath, name string) (*ssa.Global, bool) {
 		}
 	}
 	return nil, false
+}
+
+// atomicGuaranteeScan: one obligation per access to the field in the module (syntactic).
+func atomicGuaranteeScan(p *Program, key string, ar *AtomicRely) []*Obligation {
+	var out []*Obligation
+	var fns []*ssa.Function
+	for _, fn := range p.Funcs {
+		if p.inModule(fn) {
+			fns = append(fns, fn)
+		}
+	}
+	sort.Slice(fns, func(i, j int) bool { return funcInstKey(fns[i]) < funcInstKey(fns[j]) })
+	isField := func(v ssa.Value) bool {
+		fa, ok := v.(*ssa.FieldAddr)
+		if !ok {
+			return false
+		}
+		pt, ok := fa.X.Type().Underlying().(*types.Pointer)
+		if !ok {
+			return false
+		}
+		n, ok := pt.Elem().(*types.Named)
+		if !ok || n.Obj().Pkg() == nil {
+			return false
+		}
+		st, ok := n.Underlying().(*types.Struct)
+		if !ok {
+			return false
+		}
+		return n.Obj().Pkg().Path()+"."+n.Obj().Name()+"."+st.Field(fa.Field).Name() == key
+	}
+	n := 0
+	for _, fn := range fns {
+		for _, b := range fn.Blocks {
+			for _, in := range b.Instrs {
+				verdict, what := "", ""
+				switch x := in.(type) {
+				case *ssa.Store:
+					if isField(x.Addr) {
+						verdict, what = "bad", "plain (non-atomic) store"
+					}
+				case *ssa.Call:
+					cf := x.Call.StaticCallee()
+					if cf == nil || cf.Pkg == nil || cf.Pkg.Pkg.Path() != "sync/atomic" || len(x.Call.Args) == 0 || !isField(x.Call.Args[0]) {
+						continue
+					}
+					switch cf.Name() {
+					case "LoadInt32":
+						verdict, what = "ok", "atomic load"
+					case "CompareAndSwapInt32":
+						what = "compare-and-swap"
+						verdict = "bad"
+						if k, ok := x.Call.Args[1].(*ssa.Const); ok && k.Value != nil {
+							if v, exact := constant.Int64Val(k.Value); exact && int(v) == ar.From {
+								verdict = "ok"
+							}
+						}
+					default:
+						verdict, what = "bad", "atomic "+cf.Name()
+					}
+				}
+				if verdict == "" {
+					continue
+				}
+				n++
+				o := &Obligation{Name: fmt.Sprintf("guarantee/%s#%d:%s", shortenPaths(strings.ReplaceAll(funcInstKey(fn), modulePath+"/", "")), n, strings.ReplaceAll(ar.Field, ".", "_")),
+					Kind: "guarantee", Label: "atomic-guarantee", PC: "true", Goal: "true", Where: p.pos(in.Pos()) + " (" + ar.Where + ")",
+					Src: fmt.Sprintf("%s of %s: the word changes only by compare-and-swap from %d", what, ar.Field, ar.From)}
+				if verdict == "ok" {
+					o.Status, o.Solver = "unsat", "syntactic"
+				} else {
+					o.Status, o.Goal, o.Output = "sat", "false", what+" breaks the guarantee that "+ar.Field+" only changes from "+fmt.Sprint(ar.From)
+				}
+				out = append(out, o)
+			}
+		}
+	}
+	return out
 }
